@@ -610,7 +610,9 @@ class BrownianInterval(brownian_base.BaseBrownian, _Interval):
         if ta > tb:
             raise RuntimeError(f"Query times ta={ta:.3f} and tb={tb:.3f} must respect ta <= tb.")
 
-        if ta == tb:
+        # Compare at the resolution of the tree: two times that round to the same point are the same point. (Searching the
+        # dyadic tree for such a zero-length interval need not terminate.)
+        if ta == tb or self._round(ta) == self._round(tb):
             W = torch.zeros(self._size, dtype=self._dtype, device=self._device)
             H = None
             A = None
